@@ -387,7 +387,7 @@ func main() {
 		Exhaustive: false,
 		Cases: func(tier string) int {
 			if tier == "thorough" {
-				return 20000
+				return 8000
 			}
 			return 300
 		},
